@@ -502,6 +502,12 @@ func checkChainsApplied(w *World, r *Report) {
 							if al, isAl := x.Addr.(*ssa.Alloc); isAl {
 								mark(al, d+1)
 							}
+							// the one-element array of a variadic append(dst, item)
+							if ia2, isIA := x.Addr.(*ssa.IndexAddr); isIA {
+								if al, isAl := ia2.X.(*ssa.Alloc); isAl {
+									mark(al, d+1)
+								}
+							}
 						}
 					}
 				}
@@ -518,6 +524,16 @@ func checkChainsApplied(w *World, r *Report) {
 					return
 				}
 				cc := c.Common()
+				// a pass that copies the item into another chain hands it on (a pre-pass that
+				// rebuilds the chain must keep every item: dropping one by name — an escape after
+				// a raw, a repeated filter — drops a filter the template asked for)
+				if b, isB := cc.Value.(*ssa.Builtin); isB && b.Name() == "append" && len(cc.Args) == 2 {
+					if sl, ok := cc.Args[1].Type().Underlying().(*types.Slice); ok && types.Identical(sl.Elem(), itemT) && fromElem[cc.Args[1]] {
+						applyBlocks[in.Block()] = true
+						applyPos = w.posOf(in.Pos())
+					}
+					return
+				}
 				if f := calleeFunc(c); f != nil && (f.Pkg() == nil || f.Pkg().Path() != twigPath) {
 					return // logging, fmt …
 				}
